@@ -312,3 +312,395 @@ package gonum
 //@       (min(m, n) == 0 || (ge(a, m, n, lda) && (norm != lapack.MaxColumnSum || len(work) >= n)))
 //@ panics iff !valid, before-writes
 //@ writes work[j] for j in 0..n if norm == lapack.MaxColumnSum
+
+// ---- eigenvalue / SVD family (C03) ----
+
+// ---- scalar 2x2 kernels: no memory is touched, no panic ----
+
+//@ func Implementation.Dlartg Implementation.Dlas2 Implementation.Dlasv2 Implementation.Dlae2 Implementation.Dlaev2 Implementation.Dlanv2 props: C03 C07(safety)
+//@ writes nothing
+
+// ---- plane rotations -----------------------------------------------------------------
+
+//@ spec flagPivot(p int) bool = p == lapack.Variable || p == lapack.Top || p == lapack.Bottom
+
+//@ func Implementation.Dlasr props: C03 C07(safety)
+//@ let nr = ite(side == blas.Left, m, n)
+//@ valid flagS(side) && flagPivot(pivot) && flagDirect(direct) && m >= 0 && n >= 0 && lda >= max(1, n) &&
+//@       (m == 0 || n == 0 || (len(c) >= nr-1 && len(s) >= nr-1 && ge(a, m, n, lda)))
+//@ panics iff !valid, before-writes
+//@ writes a[i*lda+j] for i in 0..m, j in 0..n
+
+// ---- unblocked reductions ------------------------------------------------------------
+
+//@ func Implementation.Dsytd2 props: C03 C07(safety)
+//@ valid flagUL(uplo) && n >= 0 && lda >= max(1, n) &&
+//@       (n == 0 || (ge(a, n, n, lda) && len(d) >= n && len(e) >= n-1 && len(tau) >= n-1))
+//@ panics iff !valid, before-writes
+//@ writes a[i*lda+j] for i in 0..n, j in 0..n if (uplo == blas.Upper && j >= i) || (uplo == blas.Lower && j <= i) ;
+//@        d[k] for k in 0..n ; e[k] for k in 0..n-1 ; tau[k] for k in 0..n-1
+
+//@ spec iloihi(n int, ilo int, ihi int) bool = (n == 0 && ilo == 0 && ihi == -1) || (0 <= ilo && ilo <= ihi && ihi < n)
+
+// ilo, ihi as documented for Dgehrd (for n == 0 the doc comment of Dgehd2 asks for
+// ilo == ihi == 0, which the routine rejects; the reference accepts ilo = 0, ihi = -1).
+
+//@ func Implementation.Dgehd2 props: C03 C07(safety)
+//@ valid n >= 0 && iloihi(n, ilo, ihi) && lda >= max(1, n) &&
+//@       (n == 0 || (ge(a, n, n, lda) && len(tau) == n-1 && len(work) >= n))
+//@ panics iff !valid, before-writes
+//@ writes a[i*lda+j] for i in 0..ihi+1, j in ilo..n ; tau[k] for k in ilo..ihi ; work[k] for k in 0..n
+
+//@ func Implementation.Dorg2l props: C02 C03 C07(safety)
+//@ valid m >= 0 && 0 <= n && n <= m && 0 <= k && k <= n && lda >= max(1, n) &&
+//@       (n == 0 || (ge(a, m, n, lda) && len(tau) >= k && len(work) >= n))
+//@ panics iff !valid, before-writes
+//@ writes a[i*lda+j] for i in 0..m, j in 0..n ; work[j] for j in 0..n
+
+// ---- blocked drivers: a workspace query (lwork == -1) writes work[0] only --------------
+
+//@ func Implementation.Dorgql props: C02 C03 C07(safety)
+//@ valid m >= 0 && 0 <= n && n <= m && 0 <= k && k <= n && lda >= max(1, n) &&
+//@       (lwork >= max(1, n) || lwork == -1) && len(work) >= max(1, lwork) &&
+//@       (n == 0 || lwork == -1 || (ge(a, m, n, lda) && len(tau) >= k))
+//@ panics iff !valid, before-writes
+//@ writes work[i] for i in 0..max(1, lwork) ; a[i*lda+j] for i in 0..m, j in 0..n if lwork != -1
+
+// e and tau: at least n-1 cells (reference LAPACK; the doc comment of Dlatrd says "length n-1" for tau).
+
+//@ func Implementation.Dlatrd props: C03 C07(safety)
+//@ valid flagUL(uplo) && n >= 0 && 0 <= nb && nb <= n && lda >= max(1, n) && ldw >= max(1, nb) &&
+//@       (n == 0 || (ge(a, n, n, lda) && ge(w, n, nb, ldw) && len(e) >= n-1 && len(tau) >= n-1))
+//@ panics iff !valid, before-writes
+//@ writes a[i*lda+j] for i in 0..n, j in 0..n if (uplo == blas.Upper && j >= i) || (uplo == blas.Lower && j <= i) ;
+//@        e[k] for k in 0..n-1 ; tau[k] for k in 0..n-1 ; w[i*ldw+j] for i in 0..n, j in 0..nb
+
+// d: at least n cells, e and tau: at least n-1 cells (reference LAPACK array dimensions).
+
+//@ func Implementation.Dsytrd props: C03 C07(safety)
+//@ valid flagUL(uplo) && n >= 0 && lda >= max(1, n) && (lwork >= 1 || lwork == -1) && len(work) >= max(1, lwork) &&
+//@       (n == 0 || lwork == -1 || (ge(a, n, n, lda) && len(d) >= n && len(e) >= n-1 && len(tau) >= n-1))
+//@ panics iff !valid, before-writes
+//@ writes work[i] for i in 0..max(1, lwork) ;
+//@        a[i*lda+j] for i in 0..n, j in 0..n if lwork != -1 && ((uplo == blas.Upper && j >= i) || (uplo == blas.Lower && j <= i)) ;
+//@        d[k] for k in 0..n if lwork != -1 ; e[k] for k in 0..n-1 if lwork != -1 ; tau[k] for k in 0..n-1 if lwork != -1
+//@ loop 3: invariant 0 <= i && i < n
+
+// For uplo == blas.Lower the whole of work is written, also beyond lwork (Dorgqr: Dorg2r clears every element of work).
+
+//@ func Implementation.Dorgtr props: C03 C07(safety)
+//@ valid flagUL(uplo) && n >= 0 && lda >= max(1, n) && (lwork >= max(1, n-1) || lwork == -1) && len(work) >= max(1, lwork) &&
+//@       (n == 0 || lwork == -1 || (ge(a, n, n, lda) && len(tau) >= n-1))
+//@ panics iff !valid, before-writes
+//@ writes work[i] for i in 0..max(1, lwork) ; work[i] for i in 0..len(work) if lwork != -1 && uplo == blas.Lower && n > 1 ;
+//@        a[i*lda+j] for i in 0..n, j in 0..n if lwork != -1
+
+// ---- bidiagonal reduction ----------------------------------------------------------------
+
+//@ func Implementation.Dlabrd props: C03 C07(safety)
+//@ valid m >= 0 && n >= 0 && 0 <= nb && nb <= min(m, n) && lda >= max(1, n) && ldx >= max(1, nb) && ldy >= max(1, nb) &&
+//@       (m == 0 || n == 0 || nb == 0 || (ge(a, m, n, lda) && len(d) >= nb && len(e) >= nb && len(tauQ) >= nb && len(tauP) >= nb &&
+//@                                        ge(x, m, nb, ldx) && ge(y, n, nb, ldy)))
+//@ panics iff !valid, before-writes
+//@ writes a[i*lda+j] for i in 0..m, j in 0..n ; d[k] for k in 0..nb ; e[k] for k in 0..nb ; tauQ[k] for k in 0..nb ; tauP[k] for k in 0..nb ;
+//@        x[i*ldx+j] for i in 0..m, j in 0..nb ; y[i*ldy+j] for i in 0..n, j in 0..nb
+
+//@ func Implementation.Dgebrd props: C03 C07(safety)
+//@ valid m >= 0 && n >= 0 && lda >= max(1, n) && (lwork >= max(1, max(m, n)) || lwork == -1) && len(work) >= max(1, lwork) &&
+//@       (min(m, n) == 0 || lwork == -1 || (ge(a, m, n, lda) && len(d) >= min(m, n) && len(e) >= min(m, n)-1 &&
+//@                                          len(tauQ) >= min(m, n) && len(tauP) >= min(m, n)))
+//@ panics iff !valid, before-writes
+//@ writes work[i] for i in 0..max(1, lwork) ; a[i*lda+j] for i in 0..m, j in 0..n if lwork != -1 ;
+//@        d[k] for k in 0..min(m, n) if lwork != -1 ; e[k] for k in 0..min(m, n)-1 if lwork != -1 ;
+//@        tauQ[k] for k in 0..min(m, n) if lwork != -1 ; tauP[k] for k in 0..min(m, n) if lwork != -1
+//@ loop 1: invariant 0 <= i && i < min(m, n)
+
+//@ spec flagApply(v int) bool = v == lapack.ApplyQ || v == lapack.ApplyP
+
+// tau: at least min(nq, k) cells. One diagonal of the reflector matrix a is overwritten with 1 during the call and restored.
+
+//@ func Implementation.Dormbr props: C03 C07(safety)
+//@ let nq = ite(side == blas.Left, m, n)
+//@ let nw = ite(side == blas.Left, n, m)
+//@ let applyQ = vect == lapack.ApplyQ
+//@ valid flagApply(vect) && flagS(side) && flagTS(trans) && m >= 0 && n >= 0 && k >= 0 &&
+//@       lda >= ite(applyQ, max(1, min(nq, k)), max(1, nq)) && ldc >= max(1, n) &&
+//@       (lwork >= max(1, nw) || lwork == -1) && len(work) >= max(1, lwork) &&
+//@       (m == 0 || n == 0 || lwork == -1 ||
+//@        (ite(applyQ, ge(a, nq, min(nq, k), lda), ge(a, min(nq, k), nq, lda)) && len(tau) >= min(nq, k) && ge(c, m, n, ldc)))
+//@ panics iff !valid, before-writes
+//@ writes work[i] for i in 0..max(1, lwork) ; work[i] for i in 0..len(work) if lwork != -1 ;
+//@        c[i*ldc+j] for i in 0..m, j in 0..n if lwork != -1 ;
+//@        a[i*lda+i] for i in 0..k if lwork != -1 && ((applyQ && nq >= k) || (!applyQ && nq > k)) ;
+//@        a[(i+1)*lda+i] for i in 0..nq-1 if lwork != -1 && applyQ && nq < k ;
+//@        a[i*lda+i+1] for i in 0..nq-1 if lwork != -1 && !applyQ && nq <= k
+
+// ---- Hessenberg reduction ------------------------------------------------------------------
+
+//@ func Implementation.Dorghr props: C03 C07(safety)
+//@ valid n >= 0 && iloihi(n, ilo, ihi) && lda >= max(1, n) && (lwork >= max(1, ihi-ilo) || lwork == -1) && len(work) >= max(1, lwork) &&
+//@       (n == 0 || lwork == -1 || (ge(a, n, n, lda) && len(tau) >= n-1))
+//@ panics iff !valid, before-writes
+//@ writes work[i] for i in 0..max(1, lwork) ; work[i] for i in 0..len(work) if lwork != -1 && ihi > ilo ; a[i*lda+j] for i in 0..n, j in 0..n if lwork != -1
+
+// The arrays are not inspected when ihi == ilo (Q is the identity).
+
+//@ func Implementation.Dormhr props: C03 C07(safety)
+//@ let nq = ite(side == blas.Left, m, n)
+//@ let nw = ite(side == blas.Left, n, m)
+//@ valid flagS(side) && flagTS(trans) && m >= 0 && n >= 0 && iloihi(nq, ilo, ihi) && lda >= max(1, nq) && ldc >= max(1, n) &&
+//@       (lwork >= max(1, nw) || lwork == -1) && len(work) >= max(1, lwork) &&
+//@       (m == 0 || n == 0 || lwork == -1 || ihi == ilo || (ge(a, nq, nq, lda) && len(tau) == nq-1 && ge(c, m, n, ldc)))
+//@ panics iff !valid, before-writes
+//@ writes work[i] for i in 0..max(1, lwork) ; work[i] for i in 0..len(work) if lwork != -1 ;
+//@        c[i*ldc+j] for i in 0..m, j in 0..n if lwork != -1 ; a[(ilo+1)*lda+ilo+i*lda+i] for i in 0..ihi-ilo if lwork != -1
+
+// ---- symmetric tridiagonal eigenvalues ------------------------------------------------------
+
+//@ spec flagEVComp(c int) bool = c == lapack.EVCompNone || c == lapack.EVTridiag || c == lapack.EVOrig
+
+//@ func Implementation.Dsteqr props: C03 C07(safety)
+//@ let wantz = compz != lapack.EVCompNone
+//@ valid flagEVComp(compz) && n >= 0 && ldz >= 1 && (!wantz || ldz >= n) &&
+//@       (n == 0 || (len(d) >= n && len(e) >= n-1 && (!wantz || (ge(z, n, n, ldz) && len(work) >= max(1, 2*n-2)))))
+//@ panics iff !valid, before-writes
+//@ writes d[k] for k in 0..n ; e[k] for k in 0..n-1 ; z[i*ldz+j] for i in 0..n, j in 0..n if wantz ; work[k] for k in 0..2*n-2 if wantz
+//@ floats: ieee
+//@ loop 5: invariant l <= lend && lend < n
+//@ loop 8: invariant l >= lend && l < n
+
+//@ func Implementation.Dsterf props: C03 C07(safety)
+//@ valid n >= 0 && (n == 0 || (len(d) >= n && len(e) >= n-1))
+//@ panics iff !valid, before-writes
+//@ writes d[k] for k in 0..n ; e[k] for k in 0..n-1
+//@ floats: ieee
+//@ loop 4: invariant l <= lend && lend < n
+//@ loop 7: invariant l >= lend && l < n
+//@ ensures result ==> forall(k, 1, n, !(d[k] < d[k-1]))
+
+
+// The bound variables of the families below are named r, c, s, t, p, q (u, v, w, z in routines that
+// call another routine of this part) and not i, j, k as in the callees' contracts: with equal names the
+// frame check of a call can confuse the caller's and the callee's variables (see the report).
+
+// ---- band Cholesky -------------------------------------------------------------------
+
+// Band storage: row i of ab holds A(i, i+j) (Upper) or A(i, i+j-kd) (Lower) in column j,
+// j in 0..kd+1. Only cells that address an element of the n×n matrix may be written (not the
+// padding columns j > kd, not the unused corners marked * in the documentation).
+//
+// The further families of Dpbtf2 and Dpbtrf list the same cells again, re-indexed (row p+i, band
+// column c-i, kd+c-i, q+c-i; the condition repeats bandUL for that row and column, so each is a
+// subset of the first): the routines pass blocks of the band to BLAS with the stride ldab-1, so
+// that cell i*(ldab-1)+c of ab[p*ldab+q:] is ab[(p+i)*ldab+(q+c-i)], and the frame check of these
+// calls needs the row and the column as terms of the callee's indices (see the witness clauses).
+
+//@ spec bandUL(uplo int, n int, kd int, i int, j int) bool = 0 <= i && i < n && 0 <= j && j <= kd && ((uplo == blas.Upper && i+j < n) || (uplo == blas.Lower && i+j >= kd))
+
+//@ func Implementation.Dpbtf2 props: C02 C07(safety)
+//@ valid flagUL(uplo) && n >= 0 && kd >= 0 && ldab >= kd+1 && (n == 0 || len(ab) >= (n-1)*ldab+kd+1)
+//@ panics iff !valid, before-writes
+//@ writes ab[r*ldab+c] for r in 0..n, c in 0..kd+1 if bandUL(uplo, n, kd, r, c) ;
+//@        ab[(p+s)*ldab+(c-s)] for s in 0..n, c in 0..kd+1, p in 0..n if bandUL(uplo, n, kd, p+s, c-s) ;
+//@        ab[(p+s)*ldab+(kd+c-s)] for s in 0..n, c in -kd..kd+1, p in 0..n if bandUL(uplo, n, kd, p+s, kd+c-s)
+//@ witness kd-1, j+1
+
+//@ func Implementation.Dpbtrf props: C02 C07(safety)
+//@ valid flagUL(uplo) && n >= 0 && kd >= 0 && ldab >= kd+1 && (n == 0 || len(ab) >= (n-1)*ldab+kd+1)
+//@ panics iff !valid, before-writes
+//@ writes ab[u*ldab+v] for u in 0..n, v in 0..kd+1 if bandUL(uplo, n, kd, u, v) ;
+//@        ab[(w+t)*ldab+(v-t)] for t in 0..n, v in 0..kd+1, w in 0..n if bandUL(uplo, n, kd, w+t, v-t) ;
+//@        ab[(w+t)*ldab+(kd+v-t)] for t in 0..n, v in -kd..kd+1, w in 0..n if bandUL(uplo, n, kd, w+t, kd+v-t) ;
+//@        ab[(w+t)*ldab+(z+v-t)] for t in 0..n, v in -kd..kd+1, z in 0..kd+1, w in 0..n if bandUL(uplo, n, kd, w+t, z+v-t)
+//@ witness ib, kd-ib, i+ib, i+kd
+
+//@ func Implementation.Dpbtrs props: C02 C07(safety)
+//@ valid flagUL(uplo) && n >= 0 && kd >= 0 && nrhs >= 0 && ldab >= kd+1 && ldb >= max(1, nrhs) &&
+//@       (n == 0 || nrhs == 0 || (len(ab) >= (n-1)*ldab+kd+1 && ge(b, n, nrhs, ldb)))
+//@ panics iff !valid, before-writes
+//@ writes b[r*ldb+c] for r in 0..n, c in 0..nrhs
+
+// ---- pivoted Cholesky ----------------------------------------------------------------
+
+// ensures: the computed rank lies in 0..n and a complete factorization has rank n. (That piv
+// holds indices in 0..n is true as well, but the invariant "forall t: 0 <= piv[t] < n" across the
+// swap piv[j], piv[pvt] = piv[pvt], piv[j] is decided or not depending on the 2 s limit of the
+// invariant inference, so it is not stated.)
+
+//@ func Implementation.Dpstf2 props: C02 C07(safety)
+//@ valid flagUL(uplo) && n >= 0 && lda >= max(1, n) && (n == 0 || (ge(a, n, n, lda) && len(piv) == n && len(work) >= 2*n))
+//@ panics iff !valid, before-writes
+//@ writes a[r*lda+c] for r in 0..n, c in 0..n if (uplo == blas.Upper && c >= r) || (uplo == blas.Lower && c <= r) ;
+//@        piv[t] for t in 0..n ; work[t] for t in 0..2*n
+//@ ensures 0 <= rank && rank <= n && (ok ==> rank == n)
+//@ loop 2: invariant 0 <= pvt && pvt < n
+//@ loop 4: invariant pvt < n
+//@ invariant j == 0 || pvt >= j-1
+//@ loop 6: invariant j <= pvt && pvt < n
+//@ loop 7: invariant pvt < n
+//@ invariant j == 0 || pvt >= j-1
+//@ loop 9: invariant j <= pvt && pvt < n
+
+//@ func Implementation.Dpstrf props: C02 C07(safety)
+//@ valid flagUL(uplo) && n >= 0 && lda >= max(1, n) && (n == 0 || (ge(a, n, n, lda) && len(piv) == n && len(work) >= 2*n))
+//@ panics iff !valid, before-writes
+//@ writes a[u*lda+v] for u in 0..n, v in 0..n if (uplo == blas.Upper && v >= u) || (uplo == blas.Lower && v <= u) ;
+//@        piv[w] for w in 0..n ; work[w] for w in 0..2*n
+//@ ensures 0 <= rank && rank <= n && (ok ==> rank == n)
+//@ loop 2: invariant 0 <= pvt && pvt < n
+//@ loop 3: invariant pvt < n
+//@ loop 5: invariant pvt < n
+//@ loop 7: invariant j <= pvt && pvt < n
+//@ loop 8: invariant pvt < n
+//@ loop 10: invariant pvt < n
+//@ loop 12: invariant j <= pvt && pvt < n
+
+// ---- RQ / QL -------------------------------------------------------------------------
+
+//@ func Implementation.Dgerq2 props: C02 C07(safety)
+//@ valid m >= 0 && n >= 0 && lda >= max(1, n) && len(work) >= m &&
+//@       (min(m, n) == 0 || (ge(a, m, n, lda) && len(tau) >= min(m, n)))
+//@ panics iff !valid, before-writes
+//@ writes a[r*lda+c] for r in 0..m, c in 0..n ; tau[t] for t in 0..min(m, n) ; work[t] for t in 0..m
+
+//@ func Implementation.Dgerqf props: C02 C07(safety)
+//@ valid m >= 0 && n >= 0 && lda >= max(1, n) && (lwork >= max(1, m) || lwork == -1) && len(work) >= max(1, lwork) &&
+//@       (min(m, n) == 0 || lwork == -1 || (ge(a, m, n, lda) && len(tau) == min(m, n)))
+//@ panics iff !valid, before-writes
+//@ writes work[*] ; tau[*] ; a[u*lda+v] for u in 0..m, v in 0..n if lwork != -1
+
+//@ func Implementation.Dgeql2 props: C02 C07(safety)
+//@ valid m >= 0 && n >= 0 && lda >= max(1, n) &&
+//@       (min(m, n) == 0 || (ge(a, m, n, lda) && len(tau) >= min(m, n) && len(work) >= n))
+//@ panics iff !valid, before-writes
+//@ writes a[r*lda+c] for r in 0..m, c in 0..n ; tau[t] for t in 0..min(m, n) ; work[t] for t in 0..n
+
+//@ func Implementation.Dorgr2 props: C02 C07(safety)
+//@ valid 0 <= k && k <= m && m <= n && lda >= max(1, n) &&
+//@       (m == 0 || (len(tau) == k && ge(a, m, n, lda) && len(work) >= m))
+//@ panics iff !valid, before-writes
+//@ writes a[r*lda+c] for r in 0..m, c in 0..n ; work[t] for t in 0..m
+
+// The element of row i of a that holds the implicit 1 of the reflector is overwritten during
+// the call and restored.
+
+//@ func Implementation.Dormr2 props: C02 C07(safety)
+//@ let nq = ite(side == blas.Left, m, n)
+//@ let nw = ite(side == blas.Left, n, m)
+//@ valid flagS(side) && flagTS(trans) && m >= 0 && n >= 0 && 0 <= k && k <= nq && lda >= max(1, nq) && ldc >= max(1, n) &&
+//@       (m == 0 || n == 0 || k == 0 || (ge(a, k, nq, lda) && len(tau) >= k && ge(c, m, n, ldc) && len(work) >= nw))
+//@ panics iff !valid, before-writes
+//@ writes a[t*lda+nq-k+t] for t in 0..k ; c[r*ldc+s] for r in 0..m, s in 0..n ; work[t] for t in 0..nw
+
+// ---- band and tridiagonal solvers --------------------------------------------------------
+
+//@ func Implementation.Dtbtrs props: C02 C07(safety)
+//@ valid flagUL(uplo) && flagT(trans) && flagD(diag) && n >= 0 && kd >= 0 && nrhs >= 0 && lda >= kd+1 && ldb >= max(1, nrhs) &&
+//@       (n == 0 || (len(a) >= (n-1)*lda+kd+1 && ge(b, n, nrhs, ldb)))
+//@ panics iff !valid, before-writes
+//@ writes b[r*ldb+c] for r in 0..n, c in 0..nrhs
+
+// Dgtsv: the frame is the documented one (first n-2 elements of dl); the code cleared dl[n-2]
+// as well until the fix "Dgtsv leaves the last element of dl untouched".
+//@ func Implementation.Dgtsv props: C02 C07(safety)
+//@ valid n >= 0 && nrhs >= 0 && ldb >= max(1, nrhs) &&
+//@       (n == 0 || nrhs == 0 || (len(dl) >= n-1 && len(d) >= n && len(du) >= n-1 && ge(b, n, nrhs, ldb)))
+//@ panics iff !valid, before-writes
+//@ writes dl[k] for k in 0..n-2 ; d[k] for k in 0..n ; du[k] for k in 0..n-1 ; b[r*ldb+c] for r in 0..n, c in 0..nrhs
+
+//@ func Implementation.Dpttrf props: C02 C07(safety)
+//@ valid n >= 0 && (n == 0 || (len(d) >= n && len(e) >= n-1))
+//@ panics iff !valid, before-writes
+//@ writes d[t] for t in 0..n ; e[t] for t in 0..n-1
+
+//@ func Implementation.Dpttrs props: C02 C07(safety)
+//@ valid n >= 0 && nrhs >= 0 && ldb >= max(1, nrhs) &&
+//@       (n == 0 || nrhs == 0 || (len(d) >= n && len(e) >= n-1 && ge(b, n, nrhs, ldb)))
+//@ panics iff !valid, before-writes
+//@ writes b[r*ldb+c] for r in 0..n, c in 0..nrhs
+
+//@ func Implementation.Dptsv props: C02 C07(safety)
+//@ valid n >= 0 && nrhs >= 0 && ldb >= max(1, nrhs) &&
+//@       (n == 0 || nrhs == 0 || (len(d) >= n && len(e) >= n-1 && ge(b, n, nrhs, ldb)))
+//@ panics iff !valid, before-writes
+//@ writes d[w] for w in 0..n ; e[w] for w in 0..n-1 ; b[u*ldb+v] for u in 0..n, v in 0..nrhs
+
+// ---- condition number estimation -----------------------------------------------------------
+
+//@ func Implementation.Drscl props: C02 C07(safety)
+//@ valid n >= 0 && incX > 0 && (n == 0 || len(x) >= 1+(n-1)*incX)
+//@ panics iff !valid, before-writes
+//@ writes x[t*incX] for t in 0..n
+
+// Dlacn2 is a reverse-communication routine: isave carries its state from one call to the next
+// ("all other parameters must not be changed"); (*isave)[0] is the stage (0 before the first call,
+// then 1..5) and from stage 3 on (*isave)[1] is the index of the current unit vector.
+
+//@ func Implementation.Dlacn2 props: C02 C07(safety)
+//@ valid n >= 1 && len(v) >= n && len(x) >= n && len(isgn) >= n && 0 <= (*isave)[0] && (*isave)[0] <= 5 && ((*isave)[0] != 0 || kase == 0)
+//@ requires isave != nil
+//@ requires (*isave)[0] >= 3 ==> 0 <= (*isave)[1] && (*isave)[1] < n
+//@ panics iff !valid, before-writes
+//@ writes v[t] for t in 0..n ; x[t] for t in 0..n ; isgn[t] for t in 0..n
+//@ modifies isave
+//@ ensures 0 <= result1 && result1 <= 2
+//@ ensures 1 <= (*isave)[0] && (*isave)[0] <= 5
+//@ ensures (*isave)[0] >= 3 ==> 0 <= (*isave)[1] && (*isave)[1] < n
+
+// ---- norms of tridiagonal and band matrices ----------------------------------------------
+
+//@ func Implementation.Dlanst props: C02 C07(safety)
+//@ valid flagNorm(norm) && n >= 0 && (n == 0 || (len(d) >= n && len(e) >= n-1))
+//@ panics iff !valid, before-writes
+//@ writes nothing
+
+//@ func Implementation.Dlansb props: C02 C07(safety)
+//@ let useWork = norm == lapack.MaxColumnSum || norm == lapack.MaxRowSum
+//@ valid flagNorm(norm) && flagUL(uplo) && n >= 0 && kd >= 0 && ldab >= kd+1 &&
+//@       (n == 0 || (len(ab) >= (n-1)*ldab+kd+1 && (!useWork || len(work) >= n)))
+//@ panics iff !valid, before-writes
+//@ writes work[t] for t in 0..n if useWork
+
+// Dlantb: diag is validated since the fix "Dlantb rejects an invalid diag flag".
+//@ func Implementation.Dlantb props: C02 C07(safety)
+//@ valid flagNorm(norm) && flagUL(uplo) && flagD(diag) && n >= 0 && k >= 0 && lda >= k+1 &&
+//@       (n == 0 || (len(a) >= (n-1)*lda+k+1 && (norm != lapack.MaxColumnSum || len(work) >= n)))
+//@ panics iff !valid, before-writes
+//@ writes work[j] for j in 0..n if norm == lapack.MaxColumnSum
+
+// Dlangb: the minimal band length is accepted since the fix "Dlangb accepts a band slice of the
+// minimal length".
+//@ func Implementation.Dlangb props: C02 C07(safety)
+//@ valid flagNorm(norm) && m >= 0 && n >= 0 && kl >= 0 && ku >= 0 && ldab >= kl+ku+1 &&
+//@       (m == 0 || n == 0 || len(ab) >= (min(m, n+kl)-1)*ldab+kl+ku+1)
+//@ panics iff !valid, before-writes
+//@ writes nothing
+
+// ---- QR with column pivoting ---------------------------------------------------------------
+
+//@ func Implementation.Dlaqp2 props: C02 C07(safety)
+//@ valid m >= 0 && n >= 0 && 0 <= offset && offset <= m && lda >= max(1, n) &&
+//@       (m == 0 || n == 0 || (ge(a, m, n, lda) && len(jpvt) == n && len(tau) >= min(m-offset, n) &&
+//@                             len(vn1) >= n && len(vn2) >= n && len(work) >= n))
+//@ panics iff !valid, before-writes
+//@ writes a[r*lda+c] for r in 0..m, c in 0..n ; jpvt[t] for t in 0..n ; tau[t] for t in 0..min(m-offset, n) ;
+//@        vn1[t] for t in 0..n ; vn2[t] for t in 0..n ; work[t] for t in 0..n
+
+// FINDING: Dlaqps faults for arguments that satisfy every documented condition when nb > m-offset
+// (m = 2, n = 3, offset = 1, nb = 2, lda = 3, ldf = 2, slices of the minimal lengths: "slice bounds out of
+// range [7:6]" at dlaqps.go:131 instead of a package panic): the row rk = offset+k of the k-th reflector
+// runs past the matrix, a check nb <= m-offset (or the documentation of it) is missing; Dgeqp3 only passes
+// nb <= min(m,n)-offset. With the documented contract below slice#6[a[rk*lda:]], idx#13[a[rk*lda+k]] ... are
+// sat. Independently of that the routine cannot be brought through: the recomputation loop follows a list
+// of column indices stored as floats in vn2 (lsticc = int(vn2[lsticc]), vn2[j] = float64(lsticc)), and in the
+// safety pass int(.) and float64(.) are uninterpreted, so idx[vn2[lsticc]] is undecidable for the engine.
+// Dgeqp3 (calls Dlaqps) is left out for the same reason. Block left disabled.
+//
+// //@ func Implementation.Dlaqps props: C02 C07(safety)
+// //@ valid m >= 0 && n >= 0 && 0 <= offset && offset <= m && 0 <= nb && nb <= n && lda >= max(1, n) && ldf >= max(1, nb) &&
+// //@       (m == 0 || n == 0 || (ge(a, m, n, lda) && len(jpvt) == n && len(vn1) >= n && len(vn2) >= n &&
+// //@                             (nb == 0 || (len(tau) >= nb && len(auxv) >= nb && ge(f, n, nb, ldf)))))
+// //@ panics iff !valid, before-writes
+// //@ writes a[r*lda+c] for r in 0..m, c in 0..n ; jpvt[k] for k in 0..n ; tau[k] for k in 0..nb ;
+// //@        vn1[k] for k in 0..n ; vn2[k] for k in 0..n ; auxv[k] for k in 0..nb ; f[r*ldf+c] for r in 0..n, c in 0..nb
+// //@ ensures 0 <= kb && kb <= nb
